@@ -300,3 +300,26 @@ func lassoCheck(r *vrt.Result) string {
 	}
 	return ""
 }
+
+func refusedCheck(r *vrt.Result) string {
+	for _, e := range r.Events {
+		if e.Kind == "not-refused" {
+			return fmt.Sprintf("invalid-accepted: %s did not panic", e.Str(0))
+		}
+	}
+	return ""
+}
+
+func workersMisuseCheck(r *vrt.Result) string {
+	if m := workersCheck(r); m != "" {
+		return m
+	}
+	return refusedCheck(r)
+}
+
+func workerMisuseCheck(r *vrt.Result) string {
+	if m := workerCheck(r); m != "" {
+		return m
+	}
+	return refusedCheck(r)
+}
